@@ -5,8 +5,8 @@ from . import base
 ID = 'C04'
 LEVEL = 'exploration'
 PLAN = {
-    'quick': [('synth', 22000), ('synth_cli', 6000), ('shipped', 800)],
-    'thorough': [('synth', 900000), ('synth_cli', 200000), ('shipped', 36000)],
+    'quick': [('synth', 22000), ('synth_cli', 6000), ('shipped', 640), ('shipped_cli', 240)],
+    'thorough': [('synth', 900000), ('synth_cli', 200000), ('shipped', 30000), ('shipped_cli', 8000)],
 }
 DEADLINE = {'quick': 200, 'thorough': 3300}
 PROBES = ['input-only-load-then-full', 'optional-line-demanded', 'form-loaded-on-demand', 'foreign-input-read-without-participation']
@@ -60,9 +60,9 @@ def evaluate(case, engine, acc=None):
 
 
 def run_one(engine, seed, acc, tier):
-    if engine == 'shipped':
+    if engine in ('shipped', 'shipped_cli'):
         from . import shipped_props
-        return shipped_props.run_one(ID, seed, acc, tier)
+        return shipped_props.run_one(ID, seed, acc, tier, level='cli' if engine == 'shipped_cli' else None)
     rng = core.Rng(core.h64('c04', seed))
     case = gen.gen_case(seed, clean=rng.chance(0.8))
     if rng.chance(0.8 if engine != 'synth_cli' else 0.5):
@@ -79,7 +79,7 @@ def run_one(engine, seed, acc, tier):
 
 
 def replay(rec):
-    if rec.get('engine') == 'shipped':
+    if rec.get('engine') in ('shipped', 'shipped_cli'):
         from . import shipped_props
         return shipped_props.replay(ID, rec)
     return evaluate(rec['case'], rec.get('engine'))
